@@ -239,3 +239,17 @@ Theorem C02_loops_rs_match_model w : 0 < w ->
      Loops.long_mul w (Z.of_nat n) fuel a b = Done (long_mul w a b)).
 Proof. exact (loops_C02_match_model w). Qed.
 Print Assumptions C02_loops_rs_match_model.
+(* ==== glue tie, round 2 (text written by tools/mk_gluetie.py; keep at the END of the file) ==== *)
+(* ---- tie to the source, second round: the non-loop functions (unchecked_mul of src/int/unchecked.rs) REGENERATED from /repo/src on every run
+   (Generated/Glue.v, tools/rs2v_glue.py) are the model's, function by function, for every digit width, digit count,
+   build mode and operand (no well-formedness hypothesis): an edit of the source that changes what one of these
+   functions computes or delegates to breaks this theorem ---- *)
+From Bnum.Model Require Import Digit Core Shift AddSub Mul Div Bits Pow.
+From Bnum.Model Require Ops NumTraits.
+From Bnum.Generated Require Import Glue.
+From Bnum.Proofs Require Import GlueTieCommon GlueTieC02.
+Theorem C02_glue2_rs_matches_model :
+  (forall w a b, Glue.U_unchecked_mul w a b = U_checked_mul w a b) /\
+  (forall w a b, Glue.I_unchecked_mul w a b = I_checked_mul w a b).
+Proof. exact glue_mul2_matches_model. Qed.
+Print Assumptions C02_glue2_rs_matches_model.
